@@ -503,7 +503,11 @@ class Bits:
         elif isinstance(s, io.BytesIO):
             self._bitstore = BitStore.frombytes(s.getvalue())
         elif isinstance(s, io.BufferedReader):
-            self._setfile(s.name)
+            if isinstance(getattr(s, 'name', None), (str, bytes, pathlib.PurePath)):
+                self._setfile(s.name)
+            else:
+                # A buffered reader that isn't a named file (e.g. wrapping a BytesIO): just read its contents.
+                self._bitstore = BitStore.frombytes(s.read())
         elif isinstance(s, bitarray.bitarray):
             self._bitstore = BitStore(s)
         elif isinstance(s, array.array):
